@@ -24,10 +24,13 @@ func (n *Namespace) Use(f NspMiddlewareFunc) {
 }
 
 func (n *Namespace) runMiddlewares(socket *serverSocket, handshake *Handshake) error {
+	// Middlewares are user code: they run on a snapshot, outside the mutex, so that a middleware
+	// may itself call Use (middlewareFuncs is append-only, the snapshot stays valid).
 	n.middlewareFuncsMu.RLock()
-	defer n.middlewareFuncsMu.RUnlock()
+	middlewareFuncs := n.middlewareFuncs
+	n.middlewareFuncsMu.RUnlock()
 
-	for _, f := range n.middlewareFuncs {
+	for _, f := range middlewareFuncs {
 		err := f(socket, handshake)
 		if err != nil {
 			return &middlewareError{v: err}
@@ -71,10 +74,13 @@ func (s *serverSocket) checkMiddlewareFunc(rv reflect.Value) error {
 }
 
 func (s *serverSocket) callMiddlewares(eventName string, args []reflect.Value) error {
+	// Middlewares are user code: they run on a snapshot, outside the mutex, so that a middleware
+	// may itself call Use (middlewareFuncs is append-only, the snapshot stays valid).
 	s.middlewareFuncsMu.RLock()
-	defer s.middlewareFuncsMu.RUnlock()
+	middlewareFuncs := s.middlewareFuncs
+	s.middlewareFuncsMu.RUnlock()
 
-	if len(s.middlewareFuncs) == 0 {
+	if len(middlewareFuncs) == 0 {
 		return nil
 	}
 
@@ -83,7 +89,7 @@ func (s *serverSocket) callMiddlewares(eventName string, args []reflect.Value) e
 	values = append(values, reflect.ValueOf(eventName))
 	values = append(values, args...)
 
-	for _, f := range s.middlewareFuncs {
+	for _, f := range middlewareFuncs {
 		err := s.callMiddlewareFunc(f, values)
 		if err != nil {
 			return err
